@@ -42,6 +42,7 @@ var verifRand = struct {
 	on   bool
 	s    uint64
 	n    uint64
+	wakes uint32 // wake-ups sent to the tail so far
 	wake uint32 // permille of wake-ups of simulated goroutines that go to the tail of the run queue instead of runnext
 }{on: true, s: 0x5eed5eed5eed5eed} // on from process start: maps created by package initialisers get reproducible seeds too
 
@@ -104,7 +105,11 @@ func verifReseed(seed uint64, on bool) uint64 {
 // a multi-P runtime produces all the time and the single-P one never does.
 //
 //go:linkname verifSetWake
-func verifSetWake(permille uint32) { verifRand.wake = permille }
+func verifSetWake(permille uint32) uint32 {
+	n := verifRand.wakes
+	verifRand.wake, verifRand.wakes = permille, 0
+	return n
+}
 
 // verifDraws reports the number of draws made so far (for the event log).
 //
@@ -128,7 +133,7 @@ func verifDraws() uint64 { return verifRand.n }
     s = patch(s,
         "\t\ttrace.GoUnpark(gp, traceskip)\n\t\ttraceRelease(trace)\n\t}\n\trunqput(mp.p.ptr(), gp, next)\n",
         "\t\ttrace.GoUnpark(gp, traceskip)\n\t\ttraceRelease(trace)\n\t}\n"
-        "\tif verifRand.on && gp.bubble == nil {\n\t\tnext = false // VERIF overlay: outsiders never displace a simulated goroutine from runnext\n\t} else if verifRand.on && next && verifRand.wake != 0 && verifrandn(1000) < verifRand.wake {\n\t\tnext = false // VERIF overlay: seeded wake-up order\n\t}\n"
+        "\tif verifRand.on && gp.bubble == nil {\n\t\tnext = false // VERIF overlay: outsiders never displace a simulated goroutine from runnext\n\t} else if verifRand.on && next && verifRand.wake != 0 && verifrandn(1000) < verifRand.wake {\n\t\tnext = false // VERIF overlay: seeded wake-up order\n\t\tverifRand.wakes++\n\t}\n"
         "\trunqput(mp.p.ptr(), gp, next)\n", "proc.go/ready")
     s = patch(s,
         "\t\trunqput(pp, gp, true)\n\t} else {\n\t\tlock(&sched.lock)\n\t\tglobrunqput(gp)\n\t\tunlock(&sched.lock)\n\t}\n",
